@@ -353,16 +353,152 @@ def r3(ctx):
                 ctx.ob(wcf.qual, "one-based:%s" % u(a), ok1, wcf.loc(p_), "%s is printed 1-based like POS in the VCF" % u(a) if ok1 else "%s prints the internal 0-based position: the entry does not match POS of the VCF record" % u(a))
 
 
+def decode_layout(e):
+    """RecombinationEvent(p1, p2, X % 2, Y % 2, X // 2, Y // 2, ...) with X, Y two different expressions: (ok, text)."""
+    args = e.args[2:6]
+    txt = [u(x) for x in args]
+    ok = len(args) == 4 and all(isinstance(x, ast.BinOp) and isinstance(x.right, ast.Constant) and x.right.value == 2 for x in args)
+    if ok:
+        ok = isinstance(args[0].op, ast.Mod) and isinstance(args[1].op, ast.Mod) and isinstance(args[2].op, ast.FloorDiv) and isinstance(args[3].op, ast.FloorDiv)
+        X, Y = u(args[0].left), u(args[1].left)
+        ok = ok and u(args[2].left) == X and u(args[3].left) == Y and X != Y
+    return ok, txt
+
+
+def _shifted_zip_targets(loop):
+    """for (a...), (b...) in zip(S[k:], S[k+1:]): returns (S text, k, first target, second target) or None."""
+    it = loop.iter
+    if not (isinstance(it, ast.Call) and u(it.func) == "zip" and len(it.args) == 2 and isinstance(loop.target, ast.Tuple) and len(loop.target.elts) == 2):
+        return None
+    s0, s1 = it.args
+    if not (isinstance(s0, ast.Subscript) and isinstance(s1, ast.Subscript) and isinstance(s0.slice, ast.Slice) and isinstance(s1.slice, ast.Slice) and u(s0.value) == u(s1.value)):
+        return None
+    if s0.slice.upper is not None or s1.slice.upper is not None or s0.slice.step is not None or s1.slice.step is not None:
+        # zip(S[k:-1], S[k+1:]) is fine as well
+        if not (s1.slice.upper is None and isinstance(s0.slice.upper, ast.UnaryOp)):
+            return None
+    k0 = s0.slice.lower.value if isinstance(s0.slice.lower, ast.Constant) else (0 if s0.slice.lower is None else None)
+    k1 = s1.slice.lower.value if isinstance(s1.slice.lower, ast.Constant) else None
+    if k0 is None or k1 is None or k1 != k0 + 1:
+        return None
+    return u(s0.value), k0, loop.target.elts[0], loop.target.elts[1]
+
+
+def _event_pairing(fr, loops, e):
+    """(ok, explanation) for the two position arguments of the event, or None if the shape is not understood."""
+    a0, a1 = e.args[0], e.args[1]
+    # form A: block[i - 1], block[i] of the sorted block
+    if isinstance(a0, ast.Subscript) and isinstance(a1, ast.Subscript) and u(a0.value) == u(a1.value) and linear(a0.slice) is not None and linear(a1.slice) is not None:
+        d = {k: linear(a1.slice).get(k, 0) - linear(a0.slice).get(k, 0) for k in set(linear(a1.slice)) | set(linear(a0.slice))}
+        ok = {k: v for k, v in d.items() if v} == {"": 1}
+        blockvar = u(a0.value)
+        outer = [n for n in loops if _blocks_loop_var(n) == blockvar]
+        srt = any(isinstance(c, ast.Call) and u(c.func) == "%s.sort" % blockvar for c in ast.walk(outer[0])) if len(outer) == 1 else False
+        return ok and len(outer) == 1 and srt, "indices differ by one in the sorted block" if ok and srt else "indices %s / %s of %s%s" % (u(a0.slice), u(a1.slice), blockvar, "" if srt else " (block not sorted)")
+    # form B0: a flat n-ary zip in which the two names run over S[k:] and S[k+1:] of the same sorted block S
+    if isinstance(a0, ast.Name) and isinstance(a1, ast.Name):
+        for lp in loops:
+            it = lp.iter
+            if isinstance(it, ast.Call) and u(it.func) == "zip" and isinstance(lp.target, ast.Tuple) and len(lp.target.elts) == len(it.args) and all(isinstance(t, ast.Name) for t in lp.target.elts):
+                names_ = [t.id for t in lp.target.elts]
+                if a0.id in names_ and a1.id in names_:
+                    s0, s1 = it.args[names_.index(a0.id)], it.args[names_.index(a1.id)]
+                    if isinstance(s0, ast.Subscript) and isinstance(s1, ast.Subscript) and isinstance(s0.slice, ast.Slice) and isinstance(s1.slice, ast.Slice) and u(s0.value) == u(s1.value):
+                        k0 = s0.slice.lower.value if isinstance(s0.slice.lower, ast.Constant) else (0 if s0.slice.lower is None else None)
+                        k1 = s1.slice.lower.value if isinstance(s1.slice.lower, ast.Constant) else None
+                        blockvar = u(s0.value)
+                        outer = [n for n in loops if _blocks_loop_var(n) == blockvar]
+                        if k0 is not None and k1 is not None and len(outer) == 1 and s1.slice.upper is None:
+                            srt = any(isinstance(c, ast.Call) and u(c.func) == "%s.sort" % blockvar for c in ast.walk(outer[0]))
+                            ok = k1 == k0 + 1 and srt
+                            return ok, "neighbours of %s taken by zip(%s[%d:], %s[%d:], ...)" % (blockvar, blockvar, k0, blockvar, k1)
+    # form B: neighbours taken by zip(S[k:], S[k+1:]) where S is the sorted block or is built element by element from it
+    if isinstance(a0, ast.Name) and isinstance(a1, ast.Name):
+        for lp in loops:
+            z = _shifted_zip_targets(lp)
+            if z is None:
+                continue
+            S, k, t0, t1 = z
+
+            def pos_of(t, name):
+                if isinstance(t, ast.Name) and t.id == name:
+                    return -1
+                if isinstance(t, ast.Tuple):
+                    for i_, x_ in enumerate(t.elts):
+                        if isinstance(x_, ast.Name) and x_.id == name:
+                            return i_
+                return None
+
+            i0, i1 = pos_of(t0, a0.id), pos_of(t1, a1.id)
+            if i0 is None or i1 is None or i0 != i1:
+                continue
+            # which block is S (derived from)?
+            blockvars = [_blocks_loop_var(n) for n in loops if _blocks_loop_var(n) is not None]
+            src_block = None
+            if S in blockvars and i0 == -1:
+                src_block = S
+            else:
+                d_ = util.single_def(fr.node, S)
+                if isinstance(d_, ast.ListComp) and len(d_.generators) == 1 and not d_.generators[0].ifs and isinstance(d_.elt, ast.Tuple) and 0 <= i0 < len(d_.elt.elts):
+                    g_ = d_.generators[0]
+                    comp_src = g_.iter
+                    elem = d_.elt.elts[i0]
+                    # the i0-th field of each record is the block element itself
+                    if isinstance(comp_src, ast.Name) and comp_src.id in blockvars and u(elem) == u(g_.target):
+                        src_block = comp_src.id
+                    elif isinstance(comp_src, ast.Call) and u(comp_src.func) == "zip" and comp_src.args and isinstance(comp_src.args[0], ast.Name) and comp_src.args[0].id in blockvars and isinstance(g_.target, ast.Tuple) and u(elem) == u(g_.target.elts[0]):
+                        src_block = comp_src.args[0].id
+            if src_block is None:
+                return None
+            outer = [n for n in loops if _blocks_loop_var(n) == src_block]
+            srt = any(isinstance(c, ast.Call) and u(c.func) == "%s.sort" % src_block for c in ast.walk(outer[0])) if len(outer) == 1 else False
+            return srt, "neighbours of %s taken by zip(%s[%d:], %s[%d:])" % (src_block, S, k, S, k + 1) if srt else "block %s is not sorted" % src_block
+    return None
+
+
+def _derived_from_position_index(fr, idx):
+    """Is this subscript index a position_to_index lookup, directly or through a list of such lookups over a block?"""
+    if isinstance(idx, ast.Subscript) and u(idx.value) == "position_to_index":
+        return True
+    if isinstance(idx, ast.Name):
+        # a comprehension / loop variable running over L (or zip(..., L, ...)) with L = [position_to_index[p] for p in block]
+        n = idx
+        while n is not None and not isinstance(n, (ast.FunctionDef,)):
+            n = getattr(n, "parent", None)
+            gens = []
+            if isinstance(n, (ast.ListComp, ast.GeneratorExp, ast.SetComp, ast.DictComp)):
+                gens = [(g.target, g.iter) for g in n.generators]
+            elif isinstance(n, ast.For):
+                gens = [(n.target, n.iter)]
+            for tgt, it in gens:
+                cands = []
+                if isinstance(tgt, ast.Name) and tgt.id == idx.id:
+                    cands = [it]
+                elif isinstance(tgt, ast.Tuple) and isinstance(it, ast.Call) and u(it.func) == "zip":
+                    for k_, x_ in enumerate(tgt.elts):
+                        if isinstance(x_, ast.Name) and x_.id == idx.id and k_ < len(it.args):
+                            cands = [it.args[k_]]
+                for c_ in cands:
+                    d_ = util.single_def(fr.node, c_.id) if isinstance(c_, ast.Name) else c_
+                    if isinstance(d_, (ast.ListComp, ast.GeneratorExp)) and isinstance(d_.elt, ast.Subscript) and u(d_.elt.value) == "position_to_index":
+                        return True
+    return False
+
+
 def check_block_lookup(ctx, fr):
     params = util.params_of(fr.node)
     tv, comps, positions, costs = params[:4]
     p2i = util.single_def(fr.node, "position_to_index")
     ok = p2i is not None and isinstance(p2i, ast.DictComp) and u(p2i.generators[0].iter) == "enumerate(%s)" % positions and [u(t) for t in p2i.generators[0].target.elts] == [u(p2i.value), u(p2i.key)]
     ctx.ob(fr.qual, "position-index-map", ok, fr.loc(), "position_to_index maps each accessible position to its index" if ok else "position_to_index is not {pos: i for i, pos in enumerate(positions)}")
-    for name, src in (("block_transmission_vector", tv), ("block_recomb_cost", costs)):
-        d = util.single_def(fr.node, name)
-        ok = d is not None and isinstance(d, ast.ListComp) and len(d.generators) == 1 and u(d.generators[0].iter) == "block" and not d.generators[0].ifs and u(d.elt) == "%s[position_to_index[%s]]" % (src, u(d.generators[0].target))
-        ctx.ob(fr.qual, "per-position-lookup:%s" % name, ok, fr.loc(), "%s[k] is %s at the index of block[k]" % (name, src) if ok else "%s is %s: not a per-position lookup through position_to_index, so with interleaved phase sets values are attributed to the wrong positions" % (name, u(d) if d is not None else "?"))
+    # every read of the transmission vector / the recombination costs goes through position_to_index (components interleave:
+    # a contiguous slice or a running index would attribute values to the wrong positions)
+    for src in (tv, costs):
+        subs = [x for x in walk_function(fr.node) if isinstance(x, ast.Subscript) and isinstance(x.value, ast.Name) and x.value.id == src and isinstance(x.ctx, ast.Load)]
+        other = [x for x in walk_function(fr.node) if isinstance(x, ast.Name) and x.id == src and isinstance(x.ctx, ast.Load) and not isinstance(getattr(x, "parent", None), ast.Subscript) and not (isinstance(getattr(x, "parent", None), ast.Call) and u(x.parent.func) == "len")]
+        bad = [x for x in subs if not _derived_from_position_index(fr, x.slice)]
+        ok = bool(subs) and not bad and not other
+        ctx.ob(fr.qual, "per-position-lookup:%s" % src, ok, fr.loc(bad[0]) if bad else fr.loc(), "every read of %s is %s[position_to_index[p]] for a position p of the block" % (src, src) if ok else "%s is read as %s: not a per-position lookup through position_to_index, so with interleaved phase sets values are attributed to the wrong positions" % (src, u(bad[0]) if bad else (u(other[0].parent)[:60] if other else "?")))
 
 
 def _stmt_parent(node):
@@ -402,16 +538,12 @@ def r4(ctx):
     ctx.require(len(evs) == 1, "RecombinationEvent construction not found")
     e = evs[0]
     a0, a1 = e.args[0], e.args[1]
-    ok = isinstance(a0, ast.Subscript) and isinstance(a1, ast.Subscript) and u(a0.value) == u(a1.value)
-    if ok:
-        d = {k: linear(a1.slice).get(k, 0) - linear(a0.slice).get(k, 0) for k in set(linear(a1.slice)) | set(linear(a0.slice))}
-        ok = {k: v for k, v in d.items() if v} == {"": 1}
-        blockvar = u(a0.value)
-        outer = [n for n in loops if _blocks_loop_var(n) == blockvar]
-        ok = ok and len(outer) == 1
-        srt = any(isinstance(c, ast.Call) and u(c.func) == "%s.sort" % blockvar for c in ast.walk(outer[0])) if outer else False
-        ok = ok and srt
-    ctx.ob(fr.qual, "event-between-consecutive-members-of-one-set", ok, fr.loc(e), "an event is reported between %s and %s of one sorted component" % (u(a0), u(a1)) if ok else "event positions %s, %s are not consecutive members of one sorted component" % (u(a0), u(a1)))
+    pairing = _event_pairing(fr, loops, e)
+    if pairing is None:
+        ctx.ob(fr.qual, "event-between-consecutive-members-of-one-set", None, fr.loc(e), "cannot tell how the two event positions %s, %s relate to the block" % (u(a0), u(a1)))
+    else:
+        okp, why = pairing
+        ctx.ob(fr.qual, "event-between-consecutive-members-of-one-set", okp, fr.loc(e), "an event is reported between %s and %s, consecutive members of one sorted component (%s)" % (u(a0), u(a1), why) if okp else "event positions %s, %s are not consecutive members of one sorted component (%s)" % (u(a0), u(a1), why))
     # every phase set is examined: the block loop is only left when all blocks were seen, a block is skipped only when it is too short
     for lp_ in [n for n in loops if _blocks_loop_var(n) is not None]:
         fcfg = ctx.cfg(fr)
@@ -424,11 +556,8 @@ def r4(ctx):
     # per-block values are looked up by position, not taken as a contiguous slice (components interleave)
     check_block_lookup(ctx, fr)
     # decoding: father = value % 2, mother = value // 2
-    names = ["transmitted_hap_father1", "transmitted_hap_father2", "transmitted_hap_mother1", "transmitted_hap_mother2"]
-    exprs = [u(x) for x in e.args[2:6]]
-    tvn = "block_transmission_vector"
-    ok = exprs == ["%s[i - 1] %% 2" % tvn, "%s[i] %% 2" % tvn, "%s[i - 1] // 2" % tvn, "%s[i] // 2" % tvn]
-    ctx.ob(fr.qual, "father-bit-low-mother-bit-high", ok, fr.loc(e), "father haplotype = value % 2, mother haplotype = value // 2" if ok else "transmission decoding is %s" % exprs)
+    okl, whyl = decode_layout(e)
+    ctx.ob(fr.qual, "father-bit-low-mother-bit-high", okl, fr.loc(e), "father haplotype = value % 2, mother haplotype = value // 2, first the value at position1 then the one at position2" if okl else "transmission decoding is %s" % whyl)
     wr = ctx.func(PH + ".write_recombination_list")
     ok = False
     for n in walk_function(wr.node):
